@@ -244,6 +244,8 @@ pub enum Storage {
     Zlib(u32),
     /// hand-made zlib stream of stored (uncompressed) deflate blocks of at most `block` bytes
     Stored(usize),
+    /// the same with a zlib header announcing a window of 2^(8+wbits) bytes, wbits in 0..=7
+    StoredWin(usize, u8),
 }
 
 #[derive(Clone, Debug, PartialEq)]
